@@ -16,7 +16,9 @@ CONSTANTS
   LeafSet <- MC_LeafSet_S
   LimVals <- MC_LimVals_S
   LitPool <- MC_LitPool
+  QuotedIdents <- MC_QuotedIdents_S
   StrLits <- MC_StrLits
+  TrickyStrs <- MC_TrickyStrs_S
   MaxDefs = 2
   MaxGroup = 2
   MaxItems = 2
